@@ -443,7 +443,7 @@ func checkModel(m *ref.SpecModel, text string, toks []ref.Tok) error {
 	// (a) typed tree
 	var g *ast.Grammar
 	var err error
-	if perr := rec.Guard(func() { g, err = ast.Parse("t.ebnf", strings.NewReader(text)) }); perr != nil {
+	if perr := rec.Guard(func() { g, err = ast.Parse("t.ebnf", ref.Source(text)) }); perr != nil {
 		return fmt.Errorf("%v\nspecification:\n%s", perr, text)
 	}
 	if err != nil {
@@ -469,7 +469,7 @@ func checkModel(m *ref.SpecModel, text string, toks []ref.Tok) error {
 	var root algoparser.Node
 	if perr := rec.Guard(func() {
 		var p *ebnf.Parser
-		p, err = ebnf.New("t.ebnf", strings.NewReader(text))
+		p, err = ebnf.New("t.ebnf", ref.Source(text))
 		if err == nil {
 			root, err = p.ParseAndBuildAST()
 		}
@@ -506,12 +506,12 @@ func checkModel(m *ref.SpecModel, text string, toks []ref.Tok) error {
 		var g2, g3 *ast.Grammar
 		var err2, err3 error
 		if perr := rec.Guard(func() {
-			g2, err2 = ast.Parse("t.ebnf", strings.NewReader(printed))
+			g2, err2 = ast.Parse("t.ebnf", ref.Source(printed))
 			if err2 == nil {
 				var p3 string
 				p3, err3 = printTyped(g2)
 				if err3 == nil {
-					g3, err3 = ast.Parse("t.ebnf", strings.NewReader(p3))
+					g3, err3 = ast.Parse("t.ebnf", ref.Source(p3))
 				}
 			}
 		}); perr != nil {
@@ -537,14 +537,14 @@ func checkModel(m *ref.SpecModel, text string, toks []ref.Tok) error {
 	}
 	// Equal must see a difference in any single leaf: compare against the tree of the original text
 	var g1b *ast.Grammar
-	_ = rec.Guard(func() { g1b, _ = ast.Parse("t.ebnf", strings.NewReader(text)) })
+	_ = rec.Guard(func() { g1b, _ = ast.Parse("t.ebnf", ref.Source(text)) })
 	if g1b == nil || !g.Equal(g1b) {
 		return fmt.Errorf("parsing the same text twice does not give Equal trees\nspecification:\n%s", text)
 	}
 	// (d) the grammar read off the typed tree vs the grammar emerge derives
 	var sp *spec.Spec
 	var serr error
-	if perr := rec.Guard(func() { sp, serr = spec.Parse("t.ebnf", strings.NewReader(text)) }); perr != nil {
+	if perr := rec.Guard(func() { sp, serr = spec.Parse("t.ebnf", ref.Source(text)) }); perr != nil {
 		return fmt.Errorf("%v\nspecification:\n%s", perr, text)
 	}
 	if serr == nil && sp != nil {
@@ -595,7 +595,7 @@ func checkModel(m *ref.SpecModel, text string, toks []ref.Tok) error {
 		// deriving the grammar from the same text once more gives the same grammar, name for name (the typed tree's
 		// structure determines it, not what was derived before)
 		var sp2 *spec.Spec
-		_ = rec.Guard(func() { sp2, _ = spec.Parse("t.ebnf", strings.NewReader(text)) })
+		_ = rec.Guard(func() { sp2, _ = spec.Parse("t.ebnf", ref.Source(text)) })
 		if sp2 != nil {
 			list := func(x *spec.Spec) string {
 				var ps []string
